@@ -124,6 +124,7 @@ class SimTransport(asyncio.Transport):
         self.close_time = None
         self.writes_after_close = 0
         self.on_write = None  # optional observer called for every write attempt
+        self.made = False  # connection_made delivered: the real transport starts reading only afterwards
 
     # -- transport API used by the frame helpers
     def write(self, data) -> None:
@@ -167,9 +168,13 @@ class SimTransport(asyncio.Transport):
                 self.sock.close()
 
     # -- device side (used by harnesses)
+    def _made(self) -> None:
+        self.made = True
+        self.protocol.connection_made(self)
+
     def feed(self, data) -> None:
         """device bytes arrive (one data_received call), as the selector transport would deliver them."""
-        if self.closing:
+        if self.closing or not self.made:
             return
         try:
             self.protocol.data_received(data)
@@ -182,7 +187,7 @@ class SimTransport(asyncio.Transport):
             self._force_close(exc)
 
     def feed_eof(self) -> None:
-        if self.closing:
+        if self.closing or not self.made:
             return
         try:
             keep_open = self.protocol.eof_received()
@@ -198,7 +203,7 @@ class SimTransport(asyncio.Transport):
             self.close()
 
     def feed_reset(self, exc=None) -> None:
-        if self.closing:
+        if self.closing or not self.made:
             return
         self._force_close(exc if exc is not None else ConnectionResetError("reset by peer"))
 
@@ -263,7 +268,7 @@ class SimLoop(base_events.BaseEventLoop):
         if self.on_new_transport is not None:
             self.on_new_transport(tr)
         waiter = self.create_future()
-        self.call_soon(protocol.connection_made, tr)
+        self.call_soon(tr._made)
         self.call_soon(futures._set_result_unless_cancelled, waiter, None)
         try:
             await waiter
